@@ -11,6 +11,15 @@ SIGMA_QUICK = ["a", "_", " ", "'", "\"", ";", "<EOL>", "<CR>", "#", "[", "\\", "
 WORDS = ["data_", "data_a", "DaTa_x", "save_", "save_f", "loop_", "LOOP_", "loop_a", "stop_", "stop_x", "global_", "global_x", "gLoBaL_", "dat_", "_data", "?", ".", "??", ".1", "$a", "#", "'''", '"""',
          "a'''", 'a"""b', "'''a\"\"\"", "ab\r\ncd", "ab \r\ncd", "\r\n;x", "\r;x", ";\\\n", "a\\  \nb", "\\\n", " \\\nx", "x;;;y;;", ";;;", "a" * 2046, "a" * 2047, "a" * 2048, "a" * 2042 + "'", "'" + "a" * 2043,
          "a" * 2040 + "\nb", "b\n" + "a" * 2046, "a" * 2049 + "\nb", "é€𝄞", "𝄞'", "a b" * 600]
+# quote structure: every combination of (what rules out the simple delimiters or one triple delimiter) x (how the string
+# ends), single-line and multi-line: the delimiter decision depends on both, and strings of this shape are longer than
+# the exhaustive bound
+_A, _Q = "'", '"'
+for _pre in (_A + _Q, _A * 3, _Q * 3, _A * 3 + _Q, _Q * 3 + _A, _A * 3 + _Q * 3, _A * 2, _Q * 2):
+    for _mid in ("", "a", "a b", "\n", "a\nb"):
+        for _end in ("", _A, _Q, _A * 2, _Q * 2, _A + _Q, _Q + _A, "a"):
+            WORDS.append(_pre + _mid + _end)
+WORDS = list(dict.fromkeys(WORDS))
 
 
 def s_of(chars):
